@@ -262,6 +262,10 @@ func cmdCheck(args []string) int {
 	replayDir := filepath.Join(*verDir, "replays")
 	for _, r := range results {
 		for _, v := range r.Violations {
+			if v.Hang && *prop != "C18" {
+				// an exceeded unwinding bound is already counted (the run is not exhaustive); non-termination is C18's claim
+				continue
+			}
 			nc := nativeCase{Harness: r.Spec.Func, Inputs: v.Inputs, Params: r.Spec.Params, Known: cfg.Known}
 			for _, n := range v.Notes {
 				if strings.HasPrefix(n, "short read") {
@@ -299,7 +303,12 @@ func cmdCheck(args []string) int {
 			if err != nil {
 				detail = "native replay could not run: " + err.Error()
 			} else if len(nres) == 1 {
-				if strings.HasPrefix(v.Msg, "panic:") && nres[0].Outcome == "panic" {
+				if strings.HasPrefix(v.Msg, "panic:") && nres[0].Outcome == "panic" && !strings.Contains(nres[0].Panic, "hang:") {
+					confirmed = true
+					detail = nres[0].Panic
+				}
+				if v.Hang && nres[0].Outcome == "panic" && strings.Contains(nres[0].Panic, "hang:") {
+					// the real binary did not finish within the time limit on the same inputs
 					confirmed = true
 					detail = nres[0].Panic
 				}
